@@ -890,10 +890,61 @@ def observe_class(cls, g):
         o['detail'] = repr(e)[:200]
         o['fields_modified'] = fields_modified(g)
         return o
+    if any(m.get('t', {}).get('py_feature') == 'perm' for m in cls['members']):
+        o['perm_orders'] = perm_orders(cls, g)
     try:
         return observe_created(cls, g, o, names_before)
     finally:
         o['fields_modified'] = fields_modified(g)
+
+
+def perm_orders(cls, g):
+    """Python's reading of the annotation texts of the equal-comparing-annotations stream.  typing caches subscriptions by
+    the equality of their arguments, so a text that NESTS such an annotation (Optional[Union[str, int]], Annotated[Union[str,
+    int], 'm'], Union[str, int | float], Literal[Literal['w', 'r'], 'x']) may evaluate to the object an earlier, differently
+    ordered text produced.  That is the language's business, not the library's: per member index the order (indices into
+    the plan's args / vs) in which the evaluated object lists the planned members, or None when the object is not what the
+    plan describes."""
+    import typing
+    out = []
+    for k, m in enumerate(cls['members']):
+        t = m.get('t')
+        if not t or t.get('py_feature') != 'perm':
+            continue
+        try:
+            tp = eval(t['py'], g)
+            while t['k'] in ('annotated', 'fwd'):
+                if t['k'] == 'fwd':
+                    tp = eval(tp, g) if isinstance(tp, str) else tp
+                else:
+                    tp = tp.__origin__
+                t = t['t']
+            args = typing.get_args(tp)
+            if t['k'] == 'literal':
+                plan = [lit_key(v) for v in t['vs']]
+                order = [plan.index(lit_key(a)) for a in args]
+            else:
+                plan = [type(None) if a['k'] == 'none' else eval(a['py'], g) for a in t['args']]
+                order = [next(j for j, p in enumerate(plan) if p is a or (not isinstance(p, type) and p == a)) for a in args]
+            out.append([k, order if sorted(order) == list(range(len(plan))) else None])
+        except Exception:
+            out.append([k, None])
+    return out
+
+
+def apply_perm_orders(cls, orders):
+    """the class plan with the members of its equal-comparing annotations in the order Python gave them (see perm_orders);
+    None when some annotation object is not what the plan describes"""
+    c = json.loads(json.dumps(cls))
+    for k, order in orders:
+        if order is None:
+            return None
+        t = c['members'][k]['t']
+        while t['k'] in ('annotated', 'fwd'):
+            t = t['t']
+        key = 'vs' if t['k'] == 'literal' else 'args'
+        t[key] = [t[key][j] for j in order]
+    return c
 
 
 def fields_modified(g):
@@ -1254,6 +1305,9 @@ def oracle(ctx, case, ci, cls, obs, quirks):
             ctx.count('oracle:repeat')
             return
         said.add(what)
+        if case.get('pools'):
+            # the classes of such a case are a history: show all of them (each is still judged by its own text)
+            kw.setdefault('case_src', '\n'.join(render_class(c) for c in case['classes']))
         ctx.fail(kind, case, '%s: %s' % (cls['name'], what), key=key, detail=dict(src=src, **kw))
 
     # expected annotation -> constructor name mapping, in annotation order
@@ -1469,6 +1523,174 @@ def gen_case(rng, i, seed=0):
     return {'kind': kind, 'classes': classes}
 
 
+# --------------------------------------------------------------------------- histories of equal-comparing annotations
+#
+# Python's typing objects compare equal (with equal hashes) across member order and spelling: Union[int, str] ==
+# Union[str, int] == (str | int), Literal['r', 'w'] == Literal['w', 'r'], Annotated[Union[int, str], 'm'] ==
+# Annotated[Union[str, int], 'm'] — and the argument tuples of Literal[0, 'r'] and Literal[False, 'r'] compare equal although
+# the Literals do not.  The default IMPLIED by an annotation depends on exactly what those equalities forget (the first
+# member / first literal, its type).  A case of this stream draws one or two member POOLS and declares 2..4 classes in one
+# process whose property fields are annotated with independently drawn orders x spellings of those pools (instances are
+# constructed between the declarations); every class is judged, as always, against the implied default of its OWN
+# annotation text (oracle: stdlib introspection of the evaluated text; model: the flattened argument list of the plan).
+
+PERM_FIRST = 100000          # case indices of this stream (the main stream uses 0 .. ncases)
+LIT_POOL = [0, 1, 2, -3, 'r', 'w', 'x', '', True, False, None]
+LIT_COUSIN = {0: False, 1: True}
+SAFE_GENERIC = [g for g in GENERIC if "'Nope'" not in g[0]]
+
+
+def lit_key(v):
+    return (type(v).__name__, v)
+
+
+def gen_pool(rng):
+    """the members that the annotations of a case share: literal values or Union member types"""
+    if rng.random() < 0.4:
+        vs = []
+        for v in rng.sample(LIT_POOL, len(LIT_POOL)):
+            if all(lit_key(v) != lit_key(w) for w in vs):
+                vs.append(v)
+            if len(vs) == rng.choice([2, 2, 3, 3, 4]):
+                break
+        return {'kind': 'literal', 'members': vs}
+    members, seen, lit = [], set(), False
+    n = rng.choice([2, 2, 2, 3, 3, 4])
+    for _ in range(20):
+        r = rng.random()
+        if r < 0.55:
+            m = t_atom(rng.choice(CONCRETE + ['bytes', 'frozenset']))
+        elif r < 0.8:
+            m = t_atom(rng.choice(list(ATOMS)))
+        elif r < 0.93 or lit:
+            py, a, inst = rng.choice(SAFE_GENERIC)
+            m = {'k': 'generic', 'a': a, 'inst': inst, 'py': py}
+        else:
+            m = gen_literal(rng)         # at most one Literal member (two equal ones would be merged by typing)
+        if m['py'] in seen:
+            continue
+        lit = lit or m['k'] == 'literal'
+        seen.add(m['py'])
+        members.append(m)
+        if len(members) == n:
+            break
+    return {'kind': 'union', 'members': members}
+
+
+def cousin_pool(pool):
+    """literal values replaced by values that compare equal to them but are of another type (0 / False, 1 / True)"""
+    inv = {lit_key(v): k for k, v in LIT_COUSIN.items()}
+    out = []
+    for v in pool['members']:
+        if type(v) is int and v in LIT_COUSIN:
+            v = LIT_COUSIN[v]
+        elif type(v) is bool and lit_key(v) in inv:
+            v = inv[lit_key(v)]
+        if all(lit_key(v) != lit_key(w) for w in out):
+            out.append(v)
+    return {'kind': 'literal', 'members': out}
+
+
+def dedup_first(xs, key):
+    out, seen = [], set()
+    for x in xs:
+        if key(x) not in seen:
+            seen.add(key(x))
+            out.append(x)
+    return out
+
+
+def spell_pool(rng, pool):
+    """one annotation over the pool: an order of (mostly all of) its members x a spelling; returns the plan of the typing
+    object the text evaluates to (args flattened, first occurrence kept — what typing does)"""
+    ms = list(pool['members'])
+    rng.shuffle(ms)
+    if len(ms) > 2 and rng.random() < 0.15:
+        ms = ms[:-1]                                  # a sub-pool: not equal to the others, but shares members with them
+    if pool['kind'] == 'literal':
+        lp = lambda vs: 'typing.Literal[%s]' % ', '.join(repr(v) for v in vs)
+        r = rng.random()
+        if r < 0.6:
+            py = lp(ms)
+        elif r < 0.8:
+            py = lp(ms + [ms[0]])                                                  # a repeated value
+        else:
+            k = rng.randint(1, len(ms) - 1)
+            py = 'typing.Literal[%s, %s]' % (lp(ms[:k]), ', '.join(repr(v) for v in ms[k:]))     # nested Literal
+        return {'k': 'literal', 'vs': dedup_first(ms, lit_key), 'py': py}
+    none = {'k': 'none', 'py': 'None'}
+    up = lambda xs: 'typing.Union[%s]' % ', '.join(x['py'] for x in xs)
+    bp = lambda xs: ' | '.join(x['py'] for x in xs)
+    r = rng.random()
+    if r < 0.22:
+        # the Optional spellings (all imply None)
+        s = rng.choice(['Optional', 'UnionNone', 'barNone', 'NoneFirst'])
+        if s == 'Optional':
+            args, py = ms + [none], 'typing.Optional[%s]' % (up(ms) if rng.random() < 0.6 else bp(ms))
+        elif s == 'NoneFirst':
+            args = [none] + ms
+            py = up(args)
+        else:
+            pos = rng.randint(1, len(ms))
+            args = ms[:pos] + [none] + ms[pos:]
+            py = up(args) if s == 'UnionNone' else bp(args)
+        return {'k': 'union', 'args': args, 'py': py}
+    if r < 0.5:
+        py = up(ms)
+    elif r < 0.75:
+        py = bp(ms)
+    elif r < 0.85:
+        py = up(ms + [ms[rng.randrange(len(ms))]])                                # a repeated member
+    elif len(ms) < 3:
+        py = 'typing.Union[%s]' % bp(ms)                                          # Union over one `X | Y` argument
+    elif r < 0.93:
+        py = 'typing.Union[%s, %s]' % (ms[0]['py'], bp(ms[1:]))                   # the two spellings mixed
+    else:
+        py = 'typing.Union[%s, %s]' % (up(ms[:2]), ', '.join(x['py'] for x in ms[2:]))     # nested Union
+    return {'k': 'union', 'args': ms, 'py': py}
+
+
+def place_ann(rng, t, k, names_mod):
+    """where the annotation is written: directly, inside Annotated (without / with a Field), as a string, or through a
+    module-level name bound before the class (`names_mod` collects the statements)"""
+    r = rng.random()
+    t = dict(t, py_feature='perm')
+    if r < 0.5:
+        return t
+    if r < 0.64:
+        return {'k': 'annotated', 't': t, 'extras': ['other'], 'py': "typing.Annotated[%s, 'meta']" % t['py'], 'py_feature': 'perm'}
+    if r < 0.74:
+        fs, fpy = gen_fieldspec(rng, rng.choice(['empty', 'empty', 'empty', 'default', 'factory']))
+        return {'k': 'annotated', 't': t, 'extras': [{'field': fs}], 'py': 'typing.Annotated[%s, field(%s)]' % (t['py'], fpy), 'py_feature': 'perm'}
+    if r < 0.86:
+        return {'k': 'fwd', 't': t, 'py': repr(t['py']), 'py_feature': 'perm'}
+    name = 'UA%d_%d' % (k, len(names_mod))
+    names_mod.append('%s = %s' % (name, t['py']))
+    t2 = dict(t, py=name)
+    return t2 if rng.random() < 0.7 else {'k': 'fwd', 't': t2, 'py': repr(name), 'py_feature': 'perm'}
+
+
+def gen_perm_case(seed, i):
+    rng = random.Random('C16:%s:%d:perm' % (seed, i))
+    srng = random.Random('C16:%s:%d:perm-spelling' % (seed, i))
+    pools = [gen_pool(rng)]
+    if rng.random() < 0.5:
+        pools.append(cousin_pool(pools[0]) if pools[0]['kind'] == 'literal' and rng.random() < 0.6 else gen_pool(rng))
+    n = rng.choice([1, 2, 2, 2, 3, 3, 4])
+    names = ['C%d' % k for k in range(n)]
+    props = [rng.choice(PROP_CLASSES) for _ in range(3)] if rng.random() < 0.15 else None
+    classes = []
+    for k, nm in enumerate(names):
+        pre = []
+        forced = [place_ann(rng, spell_pool(rng, rng.choice(pools)), k, pre) for _ in range(rng.choice([1, 1, 2, 2, 3] if n > 1 else [2, 3]))]
+        env = {'aliases': [], 'privs': [], 'fts': [], 'props': props, 'ft_types': [], 'forced': forced}
+        c = gen_styled_class(rng, nm, names[k:], env=env, srng=srng)
+        if pre:
+            c['pre'] = pre
+        classes.append(c)
+    return {'kind': 'styled', 'classes': classes, 'pools': [[p['kind'], [m['py'] if isinstance(m, dict) else repr(m) for m in p['members']]] for p in pools]}
+
+
 def nontrivial(case):
     return any(m['k'] == 'prop' and m['settable'] for c in case['classes'] for m in c['members'])
 
@@ -1549,20 +1771,12 @@ def run(ctx: C.Ctx):
             ctx.seen('law:zero', py, nontrivial=True)
             ctx.agree('law:zero', py, im, o.get('r', {'driver_error': o.get('err')}))
 
-    for i in range(ncases):
-        if ctx.done(i):
-            break
-        if ctx.only is None and time.time() - t0 > budget:
-            ctx.notes['stopped_after_cases'] = i
-            break
-        case = gen_case(rng, i, ctx.seed)
-        if not ctx.begin_case(i):
-            continue
+    def evaluate(i, case):
         ctx.seen(case['kind'], case, nontrivial=nontrivial(case))
         res = in_child(observe_case, case)
         if 'crash' in res:
             ctx.fail(case['kind'], case, 'harness child crashed: ' + res['crash'][-400:], detail=dict(src=render_case(case)))
-            continue
+            return
         for ci, (cls, obs) in enumerate(zip(case['classes'], res['ok'])):
             ctx.count('class:' + ('styled' if cls['styled'] else 'wild'))
             ctx.count('cls:' + obs['cls'].split(':')[0])
@@ -1604,8 +1818,50 @@ def run(ctx: C.Ctx):
                 continue
             if cls['styled']:
                 oracle(ctx, case, ci, cls, obs, quirks)
+            if obs.get('perm_orders'):
+                # the model gets the members of an annotation in the order of the object Python made of the text
+                if any(o is not None and o != sorted(o) for _, o in obs['perm_orders']):
+                    ctx.count('perm:order-taken-from-typing-cache')
+                cls = apply_perm_orders(cls, obs['perm_orders'])
+                if cls is None:
+                    ctx.count('perm:annotation-object-not-as-planned')
+                    continue
             reqs.append(model_request(cls, obs, quirks))
             pend.append((case['kind'], {'class': cls['name'], 'src': render_class(cls), 'index': i}, obs))
+
+    # ---- histories of equal-comparing annotations (a stream with generators of its own: the main stream is unchanged)
+    nperm = ctx.quick(300, 4000)
+    pbudget = ctx.quick(25, 240)
+    for j in range(nperm):
+        i = PERM_FIRST + j
+        if ctx.done(i):
+            break
+        if ctx.only is None and time.time() - t0 > pbudget:
+            ctx.notes['perm_stopped_after_cases'] = j
+            break
+        case = gen_perm_case(ctx.seed, j)
+        if not ctx.begin_case(i):
+            continue
+        evaluate(i, case)
+        ctx.count('perm:cases')
+        ctx.count('perm:classes', len(case['classes']))
+        if len(reqs) >= 800:
+            flush()
+    flush()
+    t0 = time.time()
+
+    for i in range(ncases):
+        if ctx.only is not None and ctx.only >= PERM_FIRST:
+            break
+        if ctx.done(i):
+            break
+        if ctx.only is None and time.time() - t0 > budget:
+            ctx.notes['stopped_after_cases'] = i
+            break
+        case = gen_case(rng, i, ctx.seed)
+        if not ctx.begin_case(i):
+            continue
+        evaluate(i, case)
         if len(reqs) >= 800:
             flush()
     flush()
